@@ -239,6 +239,9 @@ class Arith:
         self.extra_funcs = {}
         self.fresh_n = 0
         self.ratio_mode = False
+        self.real_compare = False
+        self._in_lift = False
+        self.tree_mode = False   # keep values as ite-trees with constant leaves (regime 2)
 
     # ---- helpers -------------------------------------------------
     def fresh(self, prefix, sort="real"):
@@ -311,9 +314,33 @@ class Arith:
         _, c, t, f = tree
         return self.ite(c, self._map_tree(t, fn), self._map_tree(f, fn))
 
+    def _lift(self, fn, *args):
+        """tree_mode: apply fn leaf-wise when every symbolic argument is an ite-tree with constant leaves."""
+        trees = []
+        anysym = False
+        for a in args:
+            if is_sym(a):
+                t = self.const_tree(a, depth=6)
+                if t is None:
+                    return NotImplemented
+                anysym = anysym or t[0] != "leaf"
+                trees.append(t)
+            else:
+                trees.append(("leaf", a))
+        if not anysym:
+            return fn(*[t[1] for t in trees])
+
+        def rec(i, acc):
+            if i == len(trees):
+                return fn(*acc)
+            return self._map_tree(trees[i], lambda k: rec(i + 1, acc + [k]))
+        return rec(0, [])
+
     # ---- ite -----------------------------------------------------
     def ite(self, c, a, b):
         c = simp_bool(c)
+        if self.tree_mode and is_sym(c):
+            c = simp_bool(z3.simplify(c))
         if c is True:
             return a
         if c is False:
@@ -350,6 +377,8 @@ class Arith:
             ta, tb = to_z3(a), to_z3(b)
             if isinstance(a, bool) and isinstance(b, bool):
                 return c if a else z_not(c)
+            if self.tree_mode:
+                return simp_bool(z3.simplify(z3.If(c, ta, tb)))
             return z3.If(c, ta, tb)
         if is_nonfinite(a) or is_nonfinite(b):
             raise Unsupported("ite between a non-finite and another value")
@@ -398,6 +427,14 @@ class Arith:
         return NAN
 
     def add(self, a, b):
+        if self.tree_mode and not self._in_lift:
+            self._in_lift = True
+            try:
+                r = self._lift(lambda *k: self.add(*k), a, b)
+            finally:
+                self._in_lift = False
+            if r is not NotImplemented:
+                return r
         a, b = num_of_bool(a), num_of_bool(b)
         if is_nonfinite(a) or is_nonfinite(b):
             return self._nf_binop("add", a, b)
@@ -413,6 +450,14 @@ class Arith:
         return to_real(ta) + to_real(tb)
 
     def sub(self, a, b):
+        if self.tree_mode and not self._in_lift:
+            self._in_lift = True
+            try:
+                r = self._lift(lambda *k: self.sub(*k), a, b)
+            finally:
+                self._in_lift = False
+            if r is not NotImplemented:
+                return r
         a, b = num_of_bool(a), num_of_bool(b)
         if is_nonfinite(a) or is_nonfinite(b):
             return self._nf_binop("sub", a, b)
@@ -446,6 +491,14 @@ class Arith:
         return v if isinstance(v, Ratio) else Ratio(v, 1, 1)
 
     def mul(self, a, b):
+        if self.tree_mode and not self._in_lift:
+            self._in_lift = True
+            try:
+                r = self._lift(lambda *k: self.mul(*k), a, b)
+            finally:
+                self._in_lift = False
+            if r is not NotImplemented:
+                return r
         if isinstance(a, Ratio) or isinstance(b, Ratio):
             a, b = self._ratio(a), self._ratio(b)
             return Ratio(self.mul(a.num, b.num), self.mul(a.den, b.den), self.mul(a.rad, b.rad))
@@ -501,6 +554,14 @@ class Arith:
         return m
 
     def div(self, a, b):
+        if self.tree_mode and not self._in_lift:
+            self._in_lift = True
+            try:
+                r = self._lift(lambda *k: self.div(*k), a, b)
+            finally:
+                self._in_lift = False
+            if r is not NotImplemented:
+                return r
         """True division (result real)."""
         if isinstance(a, Ratio) or isinstance(b, Ratio):
             a, b = self._ratio(a), self._ratio(b)
@@ -605,6 +666,14 @@ class Arith:
         return z3.If(r < half, fl, z3.If(r > half, fl + 1, z3.If(fl % 2 == 0, fl, fl + 1)))
 
     def abs(self, a):
+        if self.tree_mode and not self._in_lift:
+            self._in_lift = True
+            try:
+                r = self._lift(lambda *k: self.abs(*k), a)
+            finally:
+                self._in_lift = False
+            if r is not NotImplemented:
+                return r
         a = num_of_bool(a)
         if not is_sym(a):
             return self._c(abs(a))
@@ -621,6 +690,14 @@ class Arith:
 
     # ---- comparison ---------------------------------------------
     def cmp(self, op, a, b):
+        if self.tree_mode and not self._in_lift:
+            self._in_lift = True
+            try:
+                r = self._lift(lambda x, y: self.cmp(op, x, y), a, b)
+            finally:
+                self._in_lift = False
+            if r is not NotImplemented:
+                return r
         if is_boolish(a) and is_boolish(b) and op in ("==", "!="):
             if isinstance(a, bool) and isinstance(b, bool):
                 return (a == b) if op == "==" else (a != b)
@@ -652,7 +729,9 @@ class Arith:
         if is_sym(a) and is_sym(b) and a.eq(b):
             return op in ("==", "<=", ">=")
         ta, tb = to_z3(a), to_z3(b)
-        if not (z3.is_int(ta) and z3.is_int(tb)):
+        if not (z3.is_int(ta) and z3.is_int(tb)) or (self.real_compare and not (is_sym(a) and is_sym(b))):
+            # real_compare: an integer unknown against a constant is compared in the reals, so that int16 and float64
+            # views of the same data produce the same terms
             ta, tb = to_real(ta), to_real(tb)
         if op == "==":
             r = ta == tb
@@ -686,6 +765,14 @@ class Arith:
         return f(to_real(x))
 
     def log(self, x):
+        if self.tree_mode and not self._in_lift:
+            self._in_lift = True
+            try:
+                r = self._lift(lambda *k: self.log(*k), x)
+            finally:
+                self._in_lift = False
+            if r is not NotImplemented:
+                return r
         x = num_of_bool(x)
         if not is_sym(x):
             if is_nonfinite(x):
@@ -699,6 +786,14 @@ class Arith:
         return self.f_log(to_real(x))
 
     def sqrt(self, x):
+        if self.tree_mode and not self._in_lift:
+            self._in_lift = True
+            try:
+                r = self._lift(lambda *k: self.sqrt(*k), x)
+            finally:
+                self._in_lift = False
+            if r is not NotImplemented:
+                return r
         x = num_of_bool(x)
         if self.ratio_mode and is_sym(x):
             return Ratio(x, 1, x)
@@ -724,6 +819,14 @@ class Arith:
         return s
 
     def pow10(self, x):
+        if self.tree_mode and not self._in_lift:
+            self._in_lift = True
+            try:
+                r = self._lift(lambda *k: self.pow10(*k), x)
+            finally:
+                self._in_lift = False
+            if r is not NotImplemented:
+                return r
         x = num_of_bool(x)
         if not is_sym(x):
             if is_nonfinite(x):
